@@ -124,9 +124,17 @@ def make_case(rng, system=None, nt=None, nv=None, scale=None):
     fields = [C[:, :, i - 1, j - 1].copy() for (i, j) in keys]
     v0 = float(rng.uniform(250.0, 900.0))
     v_array = v0 * numpy.linspace(1.05, 0.85, nv) if nv > 1 else numpy.array([v0])
+    # a history of attribute reads performed BEFORE the averages are asked for (every spelling the interface accepts:
+    # cIJ, c_IJ, cIJKL, with suffix s / t / none): results must not depend on what was read earlier
+    pre = []
+    for _ in range(int(rng.integers(0, 7))):
+        i, j = keys[int(rng.integers(len(keys)))]
+        std = {1: (1, 1), 2: (2, 2), 3: (3, 3), 4: (2, 3), 5: (1, 3), 6: (1, 2)}
+        body = [f"{i}{j}", f"_{i}{j}", "%d%d%d%d" % (std[i] + std[j]), f"{j}{i}"][int(rng.integers(4))]
+        pre.append("c" + body + ["", "s", "t", "t"][int(rng.integers(4))])
     return {"kind": "spd", "system": system, "keys": [list(k) for k in keys], "fields": [f.tolist() for f in fields],
             "nt": nt, "nv": nv, "v": v_array.tolist(), "t": numpy.linspace(0.0, 300.0 * max(nt - 1, 1), nt).tolist(),
-            "cellmass": float(rng.uniform(20.0, 600.0))}
+            "cellmass": float(rng.uniform(20.0, 600.0)), "pre_reads": pre}
 
 
 def edge_cases(rng):
@@ -173,7 +181,8 @@ def run_impl(case):
     stub = types.SimpleNamespace()
     stub.modulus_keys = keys
     stub.modulus_adiabatic = dict(zip(keys, fields))
-    stub.modulus_isothermal = stub.modulus_adiabatic
+    # isothermal tensor: distinct numbers (adiabatic minus 7 %), so that a mix-up of the two is visible
+    stub.modulus_isothermal = {k: 0.93 * f for k, f in zip(keys, fields)}
     stub.dims = (case["nt"], case["nv"])
     stub.qha_calculator = types.SimpleNamespace(volume_base=types.SimpleNamespace(
         v_array=numpy.array(case["v"], dtype=float), t_array=numpy.array(case["t"], dtype=float)))
@@ -186,6 +195,11 @@ def run_impl(case):
         out["compl"] = "error"; out["compl_exc"] = f"{type(e).__name__}: {e}"
         stub._compliances = {}
     vb = CijVolumeBaseInterface(stub)
+    for name in case.get("pre_reads", []):
+        try:
+            getattr(vb, name)
+        except Exception:
+            pass
     for name, attr in (("kV", "bulk_modulus_voigt"), ("kR", "bulk_modulus_reuss"), ("kH", "bulk_modulus_voigt_reuss_hill"),
                        ("gV", "shear_modulus_voigt"), ("gR", "shear_modulus_reuss"), ("gH", "shear_modulus_voigt_reuss_hill"),
                        ("mass", "mass"), ("vp", "primary_velocities"), ("vs", "secondary_velocities")):
@@ -203,6 +217,18 @@ def run_impl(case):
             except Exception:
                 look[f"{pre}{i}{j}"] = "error"
     out["look"] = look
+    # which tensor does each spelling serve, after everything that was read above?
+    wrong = []
+    for k, f in zip(keys, fields):
+        i, j = k.v
+        for name, exp in ((f"c{i}{j}", f), (f"c{i}{j}s", f), (f"c{i}{j}t", 0.93 * f), (f"c_{i}{j}", f)):
+            try:
+                got = numpy.array(getattr(vb, name), dtype=float)
+                if got.shape != exp.shape or not numpy.array_equal(got, exp):
+                    wrong.append(name)
+            except Exception as e:
+                wrong.append(f"{name}:{type(e).__name__}")
+    out["wrong_lookup"] = wrong
     return out
 
 
@@ -360,7 +386,7 @@ def site_of(clause):
 
 
 def replay_payload(case):
-    return {k: case[k] for k in ("kind", "system", "keys", "fields", "nt", "nv", "v", "t", "cellmass", "pd") if k in case}
+    return {k: case[k] for k in ("kind", "system", "keys", "fields", "nt", "nv", "v", "t", "cellmass", "pd", "pre_reads") if k in case}
 
 
 def evaluate(ctx, cases, consts, res, with_model=True):
@@ -410,6 +436,11 @@ def evaluate(ctx, cases, consts, res, with_model=True):
                                                       {k: jsonable(mo[k]) for k in ("kV", "kR", "gV", "gR", "vp", "vs")}, "; ".join(notes[:6])))
             else:
                 res.traces_validated += 1
+        if im.get("wrong_lookup"):
+            res.oracle_failures.append(OracleFailure(
+                what=f"attribute lookup serves the wrong tensor after reads {c.get('pre_reads', [])}: {im['wrong_lookup'][:4]}",
+                input=replay_payload(c), observed=im["wrong_lookup"][:8],
+                expected="cIJ / cIJs = adiabatic, cIJt = isothermal, whatever was read before", site="lookup:adiabatic-isothermal-mixup"))
         for clause, obs, exp in oracle(c, im, consts):
             res.oracle_failures.append(OracleFailure(what=f"{clause} fails ({c['kind']}/{c.get('system', '')})",
                                                      input=replay_payload(c), observed=obs, expected=exp, site=site_of(clause)))
